@@ -765,6 +765,7 @@ class Converter:
             # Edge case: no index specified. Eg. A[:, :]
             return self._emit1([target], "Identity", [var_name])
 
+        removed_axes: list[int] = []
         if sliced_indices or len(scalar_indices) > 1:
             # We emit a Slice operation if we have any indices like 1:5:2 or if the number of
             # scalar indices (like 2) is more than 1.
@@ -823,6 +824,7 @@ class Converter:
                     "Slice",
                     [var, start_value, end_value, axes_value, steps_value],
                 )
+                removed_axes = list(squeezed_axes)
                 squeezed_axes = self._emit_const(squeezed_axes, "squeezed_axes", info)
 
                 if non_scalar_indices:  # use temporary to store result of squeeze
@@ -841,6 +843,9 @@ class Converter:
         else:
             result = var
         non_scalar_indices.extend(scalar_indices)
+        # Apply Gathers from the last axis to the first, so that a Gather that removes
+        # its axis (scalar index) does not renumber the axes still to be indexed.
+        non_scalar_indices.sort(key=lambda pair: pair[0], reverse=True)
         if non_scalar_indices:
             last_axis, _ = non_scalar_indices[-1]
         else:
@@ -848,7 +853,10 @@ class Converter:
             last_axis = None
         for axis, index_expr in non_scalar_indices:
             index_value = self._translate_expr(index_expr)
-            axis_attr = ir.AttrInt64("axis", axis)
+            # Account for the axes already removed by the Squeeze above.
+            axis_attr = ir.AttrInt64(
+                "axis", axis - sum(1 for removed in removed_axes if removed < axis)
+            )
             # use Gather to perform indexing
             # Assign gathered value to either temporary or final target
             if axis != last_axis:  # use temporary to store result of Gather
